@@ -50,20 +50,15 @@ func main() {
 			fmt.Fprintf(os.Stderr, "[%6.1fs] %s\n", time.Since(run0).Seconds(), what)
 		}
 	}
-	t0 := time.Now()
-	// (a) streams
-	maxW, maxR := run.Pick(2, 3), run.Pick(3, 4)
-	st := streamTasks(maxW)
-	if skip("stream") {
-		st = nil
-	}
-	progress(fmt.Sprintf("stream tasks: %d", len(st)))
-	core.Par(len(st), func(i int) { c.runStreamTask(st[i], maxR) })
-	c.samples.Add(kase{Part: "stream", Writes: []int{2}, Reads: []int{1, 1}})
-	nStream := int(atomic.LoadInt64(&c.streamCases))
-	tStream := time.Since(t0).Seconds()
+	// Safety caps for the thorough tier only (the quick tier is never cut, so its
+	// counts do not depend on the machine): no new stream task is started after
+	// streamBudget, no new channel depth after chanBudget when the projected time
+	// of the level would not fit.  A cap sets exhaustive=false and is reported.
+	streamBudget, chanBudget := 6*time.Minute, 13*time.Minute
+	var caps []string
+
 	// (a) man in the middle, lying endpoints
-	progress("stream done")
+	t0 := time.Now()
 	mc := c.mitmCases_(run.Quick())
 	if skip("mitm") {
 		mc = nil
@@ -85,19 +80,9 @@ func main() {
 	}
 	core.Par(len(ac), func(i int) { c.runAuth(ac[i]) })
 	c.samples.Add(ac[2])
-	tMitm := time.Since(t0).Seconds() - tStream
-
+	tMitm := time.Since(t0).Seconds()
 	progress("mitm+auth done")
-	// (b) channels
-	depth := run.Pick(6, 8)
-	if skip("chan") {
-		depth = 0
-	}
-	t1 := time.Now()
-	cs := c.exploreChan(depth)
-	tChan := time.Since(t1).Seconds()
 
-	progress("chan done")
 	// (c) admission
 	t2 := time.Now()
 	adm := admitCases()
@@ -111,12 +96,54 @@ func main() {
 		}
 	})
 	tAdmit := time.Since(t2).Seconds()
-
 	progress("admission done")
+
 	// (b') conformance subset on started MConnections
 	t3 := time.Now()
 	mres := c.runMConnSubset(skip("mconn"))
 	tMconn := time.Since(t3).Seconds()
+	progress("mconn done")
+
+	// (a) streams
+	t4 := time.Now()
+	maxW, maxR := run.Pick(2, 3), run.Pick(3, 4)
+	st := streamTasks(maxW)
+	if skip("stream") {
+		st = nil
+	}
+	progress(fmt.Sprintf("stream tasks: %d", len(st)))
+	var streamSkipped int64
+	core.Par(len(st), func(i int) {
+		if !run.Quick() && time.Since(run0) > streamBudget {
+			atomic.AddInt64(&streamSkipped, 1)
+			return
+		}
+		c.runStreamTask(st[i], maxR)
+	})
+	if streamSkipped > 0 {
+		caps = append(caps, fmt.Sprintf("stream: time cap %v reached, %d of %d (write sequence, first read buffer) tasks not run (tasks are ordered by number of writes: the <=%d-write space is complete if the skipped tasks are fewer than the %d-write ones)", streamBudget, streamSkipped, len(st), maxW-1, maxW))
+	}
+	c.samples.Add(kase{Part: "stream", Writes: []int{2}, Reads: []int{1, 1}})
+	nStream := int(atomic.LoadInt64(&c.streamCases))
+	tStream := time.Since(t4).Seconds()
+	progress("stream done")
+
+	// (b) channels
+	depth := run.Pick(6, 8)
+	if skip("chan") {
+		depth = 0
+	}
+	t1 := time.Now()
+	var deadline time.Time
+	if !run.Quick() {
+		deadline = run0.Add(chanBudget)
+	}
+	cs := c.exploreChan(depth, deadline, progress)
+	if cs.maxDepth < depth {
+		caps = append(caps, fmt.Sprintf("channel: depth %d not started (projected to end after the %v cap); largest depth completed exhaustively: %d", cs.maxDepth+1, chanBudget, cs.maxDepth))
+	}
+	tChan := time.Since(t1).Seconds()
+	progress("chan done")
 
 	cls := c.classes.Map()
 	states := int(cs.states) + nStream + len(mc) + len(ac) + len(adm)
@@ -127,11 +154,12 @@ func main() {
 		"evaluations":                   int(atomic.LoadInt64(&c.evals)),
 		"distinct_nontrivial":           len(cls),
 		"rule": "(a) every write-size sequence of length 1.." + fmt.Sprint(maxW) + " and every read-buffer sequence of length 1.." + fmt.Sprint(maxR) +
-			" over {0,1,2,1023,1024,1025,2047,2048,3000} (a read sequence is extended only while its buffers cannot yet hold all written bytes; at full length the buffers are re-used cyclically), each on a fresh real handshake and in both directions; every tampering kind {bit flip in authenticator/length/payload/padding, swap, replay, drop, insert, cross-session splice, truncate, cut, ephemeral-key substitution, reflection of the opposite direction's unit f-1/f/f+1} at every unit 0..4 for both orders of the ephemeral keys; every lying auth message; " +
+			" over {0,1,2,1023,1024,1025,2047,2048,3000} (a read sequence is extended only while its buffers cannot yet hold all written bytes; at full length the buffers are re-used cyclically; what the enumerated buffers leave is fetched with 4096-byte reads), in both directions of a real connection made by the real handshake (at most 64 patterns back to back per connection, a probe frame in each direction after every pattern, violation artefacts carry the connection's history); every tampering kind {bit flip in authenticator/length/payload/padding, swap, replay, drop, insert, cross-session splice, truncate, cut, ephemeral-key substitution, reflection of the opposite direction's unit f-1/f/f+1} at every unit 0..4 for both orders of the ephemeral keys; every lying auth message; " +
 			"(b) breadth-first over all histories of {send(ch,size) 2x8, pump(ch), poll(ch)=isSendPending only, deliver} up to the depth bound with deduplication on (queued sizes, message in transmission+offset, receiver fill, packets on the wire, dead), every transition followed by a drain that must deliver every accepted message; " +
 			"(c) every combination of phase x refuse-list x announced-key x auth_by_ca x validator x non_validator_node_auth x signature kind x self; " +
 			"distinct_nontrivial counts distinct (part, input class, outcome) classes observed",
-		"exhaustive": skipped == "",
+		"exhaustive": skipped == "" && len(caps) == 0,
+		"caps":       caps,
 		"bounds": map[string]interface{}{
 			"max_writes": maxW, "max_reads": maxR, "sizes": sizeSet,
 			"mitm_units": "0..4", "chan_depth": depth, "chan_msg_sizes": msgSizes,
